@@ -144,7 +144,7 @@ func verifC39xExec(line string) string {
 const verifC39xThr = 1288490188 // 30% of 2^32: the deployed StateProofWeightThreshold
 
 func verifC39xGenerate(emit func(string)) {
-	rng := vh.NewRng(vh.Seed() ^ 0xC3911)
+	rng := vh.NewRng(stateproof.VerifC39MixSeed(vh.Seed(), 0xC3911))
 	// acceptable weight: the linear ramp from 100% to the threshold over the second half of the interval
 	for i := 0; i < vh.Budget(400, 20000); i++ {
 		ivl := []uint64{0, 1, 2, 3, 16, 256, 256, 256, 1000}[rng.Intn(9)]
@@ -163,7 +163,7 @@ func verifC39xGenerate(emit func(string)) {
 		}
 		emit(fmt.Sprintf("accw total=%d thr=%d ivl=%d hdr=%d first=%d", total, thr, ivl, hdr, first))
 	}
-	n := vh.Budget(30, 1200)
+	n := vh.Budget(30, 3000)
 	for i := 0; i < n; i++ {
 		thr := uint64(verifC39xThr)
 		if rng.Chance(25) {
